@@ -61,3 +61,11 @@ func KVConflicts() int
 // the committed state. NoCrash disables them again.
 func OnCrash(f func())
 func NoCrash()
+
+// GuardedBy registers a guarded-by obligation: every later access to map m
+// must happen while mutex mu (a *sync.Mutex / *sync.RWMutex) is held by the
+// accessing goroutine. Unguard drops all obligations. LocksHeld is the number
+// of mutexes the calling goroutine holds.
+func GuardedBy(m interface{}, mu interface{})
+func Unguard()
+func LocksHeld() int
